@@ -64,12 +64,13 @@ func c03Gen(r *sim.Rand, tier string) *sim.Case {
 	cs.Knobs["uptime_s"] = int64(sim.Pick(r, 0, 1, 3600, 86400*30, 86400*365*3))
 	cs.Knobs["skipmax"] = int64(sim.Pick(r, 1, 4))
 	// failing system calls: one of the cache maps holds a single entry, so the control plane's
-	// insert for every further subscriber fails (E2BIG): 1 MAC map, 2 VLAN map, 3 circuit-id map
-	cs.Knobs["mapcap"] = int64(r.Weighted(5, 2, 1, 1))
+	// insert for every further subscriber fails (E2BIG): 1 MAC map, 2 VLAN map, 3 circuit-id map,
+	// 4 the legacy circuit-id hash map (written next to the circuit-id map for every relayed lease)
+	cs.Knobs["mapcap"] = int64(r.Weighted(5, 2, 1, 1, 1))
 	if cs.Knobs["mapcap"] != 0 {
 		// the fault needs a second subscriber whose insert is refused; relayed ones also have circuit-id entries
 		cs.Knobs["clients"] = int64(r.Range(2, 3))
-		if r.P(60) {
+		if r.P(60) || cs.Knobs["mapcap"] == 4 {
 			cs.Knobs["relaymask"] = int64(r.Range(1, 7))
 		}
 	}
@@ -78,6 +79,36 @@ func c03Gen(r *sim.Rand, tier string) *sim.Case {
 		n = r.Range(4, 30)
 	}
 	nc := int(cs.Knobs["clients"])
+	if cs.Knobs["mapcap"] != 0 && r.P(40) {
+		// motif for the failing inserts: two clients are acknowledged one after the other (the
+		// second one's insert into the single-slot map is refused), each then ends its lease
+		// (release, decline or expiry) and asks again
+		shape := func() []int64 {
+			return []int64{int64(r.Weighted(3, 5, 3)), int64(r.Weighted(9, 1)), int64(r.N(2)), int64(r.Weighted(6, 2, 2))}
+		}
+		if cs.Knobs["mapcap"] >= 3 {
+			cs.Knobs["relaymask"] |= 3
+		}
+		for _, c := range []int64{0, 1} {
+			cs.Ops = append(cs.Ops, sim.Op{K: "discover", A: append([]int64{c}, shape()...)}, sim.Op{K: "request", A: append([]int64{c}, shape()...)})
+		}
+		order := []int64{1, 0}
+		if r.P(30) {
+			order = []int64{0, 1}
+		}
+		for _, c := range order {
+			switch r.Weighted(5, 2, 2) {
+			case 0:
+				cs.Ops = append(cs.Ops, sim.Op{K: "release", A: append([]int64{c}, shape()...)})
+			case 1:
+				cs.Ops = append(cs.Ops, sim.Op{K: "decline", A: append([]int64{c}, shape()...)})
+			default:
+				cs.Ops = append(cs.Ops, sim.Op{K: "sleep", A: []int64{4}})
+			}
+			cs.Ops = append(cs.Ops, sim.Op{K: "discover", A: append([]int64{c}, shape()...)})
+		}
+		n = r.Range(0, 6)
+	}
 	for i := 0; i < n; i++ {
 		c := int64(r.N(nc))
 		// frame shape: options padding class, IP header length, broadcast flag, option layout
@@ -201,7 +232,7 @@ func c03Run(c *sim.Ctx) {
 		if sp.t == cebpf.Array {
 			n = 1
 		}
-		if mc := cs.Knob("mapcap", 0); (mc == 1 && i == 0) || (mc == 2 && i == 1) || (mc == 3 && i == 6) {
+		if mc := cs.Knob("mapcap", 0); (mc == 1 && i == 0) || (mc == 2 && i == 1) || (mc == 3 && i == 6) || (mc == 4 && i == 5) {
 			n = 1
 			capped = i
 			c.S.Probe("kmap_capacity_1_configured")
@@ -552,7 +583,7 @@ func init() {
 		Real: []string{"bpf/dhcp_fastpath.c compiled natively with clang against shim helper headers", "ebpf.Loader map writers over real kernel maps created with the C-declared key/value sizes",
 			"dhcp.Server slow path (handlers, lease cleanup loop) + dhcp.Pool/PoolManager.AddPool", "the kernel's map implementation"},
 		Stub:         []string{"XDP attach, driver and NIC (frames are handed to the program directly; XDP_TX output is the reply)", "bpf_ktime_get_ns (kernel uptime = configured boot offset + virtual time)", "bpf_xdp_adjust_tail (moves data_end inside the packet arena)"},
-		Rule:         "cases: 4-30 DISCOVER/REQUEST/RELEASE/DECLINE frames (untagged/802.1Q/QinQ, IHL 5/6, three padding classes, three option layouts, direct or relayed with option 82) from 1-3 clients through the kernel node into the slow path, sleeps across T1/expiry/cleanup; configurations: prefix 20-30 (larger pools are too slow to materialise per run), 0-2 DNS servers, lease 1 s-1 week, server id set/unset, kernel uptime 0-3 years, and in 4 of 9 runs one cache map (MAC, VLAN or circuit-id) created with a single slot so that further inserts are refused by the kernel (E2BIG); non-trivial = a refused insert occurred, or = >=3 frames and both verdicts (TX and PASS) occurred; distinct = distinct case hash",
+		Rule:         "cases: 4-30 DISCOVER/REQUEST/RELEASE/DECLINE frames (untagged/802.1Q/QinQ, IHL 5/6, three padding classes, three option layouts, direct or relayed with option 82) from 1-3 clients through the kernel node into the slow path, sleeps across T1/expiry/cleanup; configurations: prefix 20-30 (larger pools are too slow to materialise per run), 0-2 DNS servers, lease 1 s-1 week, server id set/unset, kernel uptime 0-3 years, and in half of the runs one cache map (MAC, VLAN, circuit-id or the legacy circuit-id hash map) created with a single slot so that further inserts are refused by the kernel (E2BIG); non-trivial = a refused insert occurred, or = >=3 frames and both verdicts (TX and PASS) occurred; distinct = distinct case hash",
 		QuickRuns:    10000,
 		ThoroughRuns: 300000,
 		Assumptions: []string{"native code generation instead of the BPF back end", "'expired in userspace' = the lease has left the userspace lease table (after the cleanup that follows expiry)",
